@@ -228,6 +228,9 @@ macro_rules! dispatch {
             "C02" => $f(&props::c02::C02, $($args),*),
             "C03" => $f(&props::c03::C03, $($args),*),
             "C04" => $f(&props::c04::C04, $($args),*),
+            "C05" => $f(&props::c05::C05, $($args),*),
+            "C06" => $f(&props::c06::C06, $($args),*),
+            "C08" => $f(&props::c08::C08, $($args),*),
             "C09" => $f(&props::c09::C09, $($args),*),
             "C10" => $f(&props::c10::C10, $($args),*),
             "C14" => $f(&props::c14::C14, $($args),*),
